@@ -74,7 +74,7 @@ func (r *Run) resolveFrom(op Op) uint64 {
 		}
 		return 2
 	case "max":
-		return ^uint64(0) - 1
+		return 1<<63 - 1
 	}
 	return 0
 }
